@@ -170,6 +170,23 @@ impl Table {
         }
     }
 
+    /// Store the i-th positional item of a table constructor (nil items keep their array slot).
+    pub fn set_positional(&mut self, i: i64, v: Value) {
+        let idx = (i as u64).wrapping_sub(1);
+        let n = self.arr.len() as u64;
+        if idx < n {
+            self.arr[idx as usize] = v;
+        } else if idx == n {
+            self.arr.push(v);
+        } else {
+            self.set_int(i, v);
+        }
+    }
+
+    pub fn finish_constructor(&mut self) {
+        self.migrate();
+    }
+
     /// Move successors of the array part out of the hash part.
     fn migrate(&mut self) {
         while !self.map.is_empty() {
